@@ -40,6 +40,16 @@ pub(crate) async fn kos_ot_receiver(
     p_to: usize,
     shared_rand: &mut ChaCha20Rng,
 ) -> Result<Vec<u128>, Error> {
+    #[cfg(feature = "__verif")]
+    let bs_tapped = {
+        let mut bs = bs.to_vec();
+        for (j, b) in bs.iter_mut().enumerate() {
+            crate::verif::tap_bool("ot_choice", p_to * 1_000_000 + j, b);
+        }
+        bs
+    };
+    #[cfg(feature = "__verif")]
+    let bs = &bs_tapped[..];
     let mut rng = AesRng::new();
     let mut ot = ot_core::KosReceiver::init(channel, &mut rng, p_to, shared_rand).await?;
 
